@@ -1,7 +1,7 @@
 (** Evaluator glue for C18: runs the model on what the harness ran the real
     code on. *)
 From AGH Require Import Base.Run Model.Schedule.
-From AGH Require Export Model.ScheduleText Model.BlockedSvcHttp Model.BlockedSvcClient.
+From AGH Require Export Model.ScheduleText Model.BlockedSvcHttp Model.BlockedSvcClient Model.ScheduleZone.
 Local Open Scope Z_scope.
 
 Definition mk (s e : Z) := {| dr_start := s; dr_end := e |}.
@@ -22,16 +22,18 @@ Definition sched_obs := (bytes * list text_day)%type.
 Definition http_obs :=
   (Z * list bytes * option sched_obs * list (Z * bool) * option (list bytes))%type.
 
-(** Request histories: a persistent client of the table is (uses its own
-    blocked services?, ids, zone name, ranges in ns).  A step is a request to
-    the global HTTP endpoints (with the observed status) or a DNS request:
-    the index of the client the lookup found, the instant the harness read
-    right before the call, the offsets at that instant of the zones involved
-    (by name), and the names in [setts.ServicesRules] afterwards. *)
-Definition client_desc := (bool * list bytes * bytes * list (Z * Z))%type.
+(** Request histories: a persistent client of the storage is (uses its own
+    general settings?, its FilteringEnabled, uses its own blocked services?,
+    ids, zone name, ranges in ns).  A step is a request to the global HTTP
+    endpoints (with the observed status) or a DNS request: the index of the
+    client the request belongs to, the instant the harness read right before
+    the call, the offsets at that instant of the zones involved (by name),
+    and the names in [setts.ServicesRules] and [setts.FilteringEnabled]
+    afterwards. *)
+Definition client_desc := (bool * bool * bool * list bytes * bytes * list (Z * Z))%type.
 Inductive req_step :=
   | RHttp (o : op) (status : Z)
-  | RReq (cl : option nat) (t : Z) (offs : list (bytes * Z)) (obs : list bytes).
+  | RReq (cl : option nat) (t : Z) (offs : list (bytes * Z)) (obs : list bytes) (obs_flt : bool).
 
 Inductive case :=
   (* instant (ns), zone offset at that instant (s), ranges (ns), observed Contains *)
@@ -64,10 +66,21 @@ Inductive case :=
      after every request *)
   | CHttp (known init_ids : list bytes) (init_zone : bytes) (init_days : list (Z * Z))
       (instants : list Z) (obs0 : http_obs) (steps : list (op * http_obs))
-  (* history of HTTP requests and DNS requests against a real DNSFilter whose
-     client lookup answers from [clients] *)
-  | CReq (known init_ids : list bytes) (init_zone : bytes) (init_days : list (Z * Z))
-      (clients : list client_desc) (steps : list req_step).
+  (* history of HTTP requests and DNS requests against a real DNSFilter wired
+     to a real client.Storage holding [clients]; [gf]: the global
+     FilteringEnabled *)
+  | CReq (known init_ids : list bytes) (init_zone : bytes) (init_days : list (Z * Z)) (gf : bool)
+      (clients : list client_desc) (steps : list req_step)
+  (* a whole schedule document, "time_zone" member included, handed to
+     Weekly.UnmarshalYAML ([yaml]) or Weekly.UnmarshalJSON: the zone text, whether
+     the tz database of the host has that name, the duration texts in
+     document order; observed: -1 accepted, 10*weekday + range error code,
+     100 + syntax error code, 200 the zone does not load; when accepted the
+     name the location reports, the seven ranges (ns) and the re-marshalled
+     document (zone text, day texts) *)
+  | CZoneDoc (yaml : bool) (zone : bytes) (kn : bool) (fs : list field)
+      (obs_err : Z) (obs_zone : bytes) (obs_days : list (Z * Z))
+      (back_zone : bytes) (back : list text_day).
 
 Definition eqb_zz (a b : Z * Z) := (fst a =? fst b) && (snd a =? snd b).
 
@@ -160,8 +173,9 @@ Definition http_init (ids : list bytes) (zone : bytes) (days : list (Z * Z)) : b
      bs_sched := {| sc_zone := zone; sc_days := map (fun p => mk (fst p) (snd p)) days |} |}.
 
 Definition mk_client (d : client_desc) : client :=
-  let '(own, ids, zone, days) := d in
-  {| cl_use_own := own; cl_bsvc := http_init ids zone days |}.
+  let '(os, fl, own, ids, zone, days) := d in
+  {| cl_use_own_settings := os; cl_filtering := fl; cl_use_own := own;
+     cl_bsvc := http_init ids zone days |}.
 
 (** The tz database as far as a request needs it: the offsets the harness
     read for the zones involved; a zone it did not name gets an offset no
@@ -182,17 +196,22 @@ Definition req_model (known : list bytes) (clients : list client_desc) (s : bsvc
     (cl : option nat) (t : Z) (offs : list (bytes * Z)) : list bytes :=
   request_services (fun z _ => off_lookup offs z) known s (req_client clients cl) t t.
 
+Definition req_model_flt (known : list bytes) (gf : bool) (clients : list client_desc) (s : bsvc)
+    (cl : option nat) (t : Z) (offs : list (bytes * Z)) : bool :=
+  request_filtering (fun z _ => off_lookup offs z) known gf s (req_client clients cl) t t.
+
 (** Index of the first step that differs, or -1. *)
-Fixpoint req_first_bad (known : list bytes) (clients : list client_desc) (s : bsvc)
+Fixpoint req_first_bad (known : list bytes) (gf : bool) (clients : list client_desc) (s : bsvc)
     (steps : list req_step) (i : Z) : Z :=
   match steps with
   | [] => -1
   | RHttp o st :: steps =>
       let (st', s') := step known o s in
-      if st' =? st then req_first_bad known clients s' steps (i + 1) else i
-  | RReq cl t offs obs :: steps =>
-      if eqb_list eqb_bytes (req_model known clients s cl t offs) obs
-      then req_first_bad known clients s steps (i + 1) else i
+      if st' =? st then req_first_bad known gf clients s' steps (i + 1) else i
+  | RReq cl t offs obs oflt :: steps =>
+      if eqb_list eqb_bytes (req_model known clients s cl t offs) obs &&
+         Bool.eqb (req_model_flt known gf clients s cl t offs) oflt
+      then req_first_bad known gf clients s steps (i + 1) else i
   end.
 
 Fixpoint req_trace (known : list bytes) (clients : list client_desc) (s : bsvc)
@@ -201,9 +220,21 @@ Fixpoint req_trace (known : list bytes) (clients : list client_desc) (s : bsvc)
   | [] => []
   | RHttp o st :: steps =>
       let (st', s') := step known o s in (st', -1) :: req_trace known clients s' steps
-  | RReq cl t offs obs :: steps =>
+  | RReq cl t offs obs _ :: steps =>
       (0, Z.of_nat (length (req_model known clients s cl t offs))) :: req_trace known clients s steps
   end.
+
+Definition zdoc_res_code (r : zdoc_err + sched) : Z :=
+  match r with
+  | inl (ZSyntax c) => 100 + c
+  | inl ZZone => 200
+  | inl (ZRange i e) => 10 * i + err_code e
+  | inr _ => -1
+  end.
+
+Definition zdoc_model (yaml kn : bool) (zone : bytes) (fs : list field) : zdoc_err + sched :=
+  decode_zdoc (fun _ => kn) (if yaml then parse_yaml_dur else parse_json_dur)
+    {| zd_zone := zone; zd_fields := fs |}.
 
 Definition case_ok (c : case) : bool :=
   match c with
@@ -233,8 +264,19 @@ Definition case_ok (c : case) : bool :=
       let s := http_init ids zone days in
       let (ok, cur) := http_obs_ok known instants st_ok s None o0 in
       ok && http_run_ok known instants s cur steps
-  | CReq known ids zone days clients steps =>
-      req_first_bad known clients (http_init ids zone days) steps 0 =? -1
+  | CReq known ids zone days gf clients steps =>
+      req_first_bad known gf clients (http_init ids zone days) steps 0 =? -1
+  | CZoneDoc yaml zone kn fs e ozone odays bzone back =>
+      let r := zdoc_model yaml kn zone fs in
+      (zdoc_res_code r =? e) &&
+      match r with
+      | inr sc =>
+          eqb_bytes (sc_zone sc) ozone && eqb_list eqb_zz (marshal_yaml (sc_days sc)) odays &&
+          eqb_bytes (sc_zone sc) bzone &&
+          eqb_list (eqb_option eqb_bb)
+            (marshal_text (if yaml then tu_string else print_ms_text) (sc_days sc)) back
+      | inl _ => true
+      end
   end.
 
 Definition mismatches := Base.Run.mismatches case_ok.
@@ -267,7 +309,10 @@ Definition explain (c : case) :=
       let (ok, cur) := http_obs_ok known instants st_ok s None o0 in
       ((if ok then http_first_bad known instants s cur steps 1 else 0),
        http_statuses known s steps)
-  | CReq known ids zone days clients steps =>
-      (req_first_bad known clients (http_init ids zone days) steps 0,
+  | CReq known ids zone days gf clients steps =>
+      (req_first_bad known gf clients (http_init ids zone days) steps 0,
        req_trace known clients (http_init ids zone days) steps)
+  | CZoneDoc yaml zone kn fs _ _ _ _ _ =>
+      let r := zdoc_model yaml kn zone fs in
+      (zdoc_res_code r, match r with inr sc => marshal_yaml (sc_days sc) | _ => [] end)
   end.
